@@ -62,7 +62,7 @@ let () =
        | "fold" :: op :: vals ->
          (* n-ary fold; observable "result;a;b;c..." : the operands must come back unchanged *)
          let vs = List.map parse_num vals and op = arop_of op in
-         let r = show_num_res (numeric_fold op vs) in
+         let r = show_num_res (numeric_builtin op vs) in
          let obs = String.concat ";" (r :: List.map show_num vs) in
          (* the oracle speaks for + - * on all-int64 / all-uint64 operand lists (exact fold, reduced once) *)
          let sp = (match spec_fold op vs with
